@@ -35,10 +35,68 @@ def exec_block(self: Interp, stmts, st: State):
     return done + [Outcome("normal", s_) for s_ in live]
 
 
+_ANF_COUNTER = [0]
+
+
+def _spine_has_call(e):
+    """f(..).g(..)  /  f(..)[i]  /  f(..).attr : a call result used as receiver / subscripted / dereferenced"""
+    while True:
+        if isinstance(e, ast.Call):
+            f = e.func
+            if isinstance(f, ast.Attribute):
+                if isinstance(f.value, ast.Call):
+                    return True
+                e = f.value
+                continue
+            return False
+        if isinstance(e, (ast.Subscript, ast.Attribute)):
+            if isinstance(e.value, ast.Call):
+                return True
+            e = e.value
+            continue
+        return False
+
+
+def _lift_spine(e, pre):
+    """Hoist the calls on the receiver spine of e into temporaries (left-to-right order is preserved)."""
+    def tmp(call):
+        _ANF_COUNTER[0] += 1
+        name = f"_anf{_ANF_COUNTER[0]}"
+        a = ast.Assign(targets=[ast.Name(id=name, ctx=ast.Store())], value=call, lineno=getattr(e, "lineno", 0))
+        ast.copy_location(a, call)
+        ast.fix_missing_locations(a)
+        pre.append(a)
+        return ast.copy_location(ast.Name(id=name, ctx=ast.Load()), call)
+    if isinstance(e, ast.Call) and isinstance(e.func, ast.Attribute):
+        v = _lift_spine(e.func.value, pre)
+        if isinstance(v, ast.Call):
+            v = tmp(v)
+        return ast.copy_location(ast.Call(func=ast.copy_location(ast.Attribute(value=v, attr=e.func.attr, ctx=ast.Load()),
+                                                              e.func), args=e.args, keywords=e.keywords), e)
+    if isinstance(e, ast.Subscript):
+        v = _lift_spine(e.value, pre)
+        if isinstance(v, ast.Call):
+            v = tmp(v)
+        return ast.copy_location(ast.Subscript(value=v, slice=e.slice, ctx=e.ctx), e)
+    if isinstance(e, ast.Attribute):
+        v = _lift_spine(e.value, pre)
+        if isinstance(v, ast.Call):
+            v = tmp(v)
+        return ast.copy_location(ast.Attribute(value=v, attr=e.attr, ctx=e.ctx), e)
+    return e
+
+
 def exec_stmt(self: Interp, s, st: State):
     m = getattr(self, "x_" + type(s).__name__, None)
     if m is None:
         raise Unsupported(f"statement {type(s).__name__}")
+    if isinstance(s, (ast.Assign, ast.AnnAssign, ast.Expr, ast.Return)) and s.value is not None and \
+            _spine_has_call(s.value):
+        # a call result used as a receiver: name it first, so that a raising callee forks at statement level
+        pre = []
+        v2 = _lift_spine(s.value, pre)
+        s2 = copy_stmt_with_value(s, v2)
+        return self.exec_block(pre + [s2], st)
     scs = []
     fr = self.frame
     if fr is not None and fr.fn is not None and not isinstance(s, (ast.For, ast.While, ast.If, ast.With, ast.Try)):
@@ -62,6 +120,14 @@ def exec_stmt(self: Interp, s, st: State):
         finally:
             fr.before = saved
     return outs
+
+
+def copy_stmt_with_value(s, v):
+    import copy as _copy
+    s2 = _copy.copy(s)
+    s2.value = v
+    ast.fix_missing_locations(s2)
+    return s2
 
 
 def _normal(st):
